@@ -76,17 +76,61 @@ fn rule_name(r: Rule) -> &'static str {
 }
 
 fn case_str(c: &Case, rule: Rule, aa: bool) -> String {
-    format!("w={} h={} rule={} aa={} ops={}", c.w, c.h, rule_name(rule), if aa { 1 } else { 0 }, ops_str(&c.ops))
+    let pre = PREAMBLE.with(|p| p.get());
+    format!("w={} h={} rule={} aa={} pre={} ops={}", c.w, c.h, rule_name(rule), if aa { 1 } else { 0 }, pre, ops_str(&c.ops))
 }
 
 pub const WHITE: SolidSource = SolidSource { r: 0xff, g: 0xff, b: 0xff, a: 0xff };
 
 /// one (path, rule, aa) configuration against the model; Ok(hash of observed pixels)
+thread_local! {
+    /// calls made on the target before the fill under test; all of them leave every pixel alone
+    /// (0 = none, 1 = push_clip of an on-surface path + pop, 2 = push_clip of a path reaching
+    /// below the surface + pop, 3 = fill of an off-surface path and of an empty one,
+    /// 4 = layer pushed under an empty clip and popped)
+    static PREAMBLE: std::cell::Cell<u8> = std::cell::Cell::new(0);
+}
+
+fn preamble(dt: &mut DrawTarget, k: u8) {
+    let tri = |y0: f32, y1: f32| {
+        let mut pb = PathBuilder::new();
+        pb.move_to(0.25, y0);
+        pb.line_to(1.75, y0 + 0.5);
+        pb.line_to(0.5, y1);
+        pb.close();
+        pb.finish()
+    };
+    match k {
+        1 => {
+            dt.push_clip(&tri(0.25, 1.5));
+            dt.pop_clip();
+        }
+        2 => {
+            dt.push_clip(&tri(0.5, 9.0));
+            dt.pop_clip();
+        }
+        3 => {
+            dt.fill(&tri(-9.0, -6.0), &Source::Solid(WHITE), &DrawOptions::new());
+            dt.fill(&PathBuilder::new().finish(), &Source::Solid(WHITE), &DrawOptions::new());
+        }
+        4 => {
+            dt.push_clip_rect(IntRect::new(IntPoint::new(2, 2), IntPoint::new(1, 1)));
+            dt.push_layer(1.0);
+            dt.fill(&tri(0.25, 1.5), &Source::Solid(WHITE), &DrawOptions::new());
+            dt.pop_layer();
+            dt.pop_clip();
+        }
+        _ => {}
+    }
+}
+
 fn eval_config(c: &Case, rule: Rule, aa: bool, cov: &Cov) -> Result<u64, Violation> {
     let path = build_path(&c.ops, rule);
     let (w, h) = (c.w, c.h);
+    let pre = PREAMBLE.with(|p| p.get());
     let r = guard(|| {
         let mut dt = DrawTarget::new(w, h);
+        preamble(&mut dt, pre);
         dt.fill(
             &path,
             &Source::Solid(WHITE),
@@ -235,6 +279,22 @@ fn polygons(run: &Run, name: &str, w: i32, h: i32, pts: &[(i32, i32)], n: usize,
 }
 
 /// all op strings of length 1..=depth over {M,L} x pts + {Z}
+/// triangles over `pts`, filled after preamble `pre` (see PREAMBLE)
+fn polygons_pre(run: &Run, name: &str, w: i32, h: i32, pts: &[(i32, i32)], pre: u8) {
+    let np = pts.len();
+    run.bound(name, format!("{}^3 triangles x 2 rules x 2 antialias modes on {}x{}", np, w, h));
+    run.par(np * np, |s, l| {
+        PREAMBLE.with(|p| p.set(pre));
+        for k in 0..np {
+            let (a, b, c) = (pts[s / np], pts[s % np], pts[k]);
+            let case = Case { w, h, ops: vec![QOp::M(a.0, a.1), QOp::L(b.0, b.1), QOp::L(c.0, c.1)] };
+            l.states += 1;
+            eval_case(run, 960_000 + s, &case, l, &BOTH_AA, &BOTH_RULES);
+        }
+        PREAMBLE.with(|p| p.set(0));
+    });
+}
+
 fn op_strings(run: &Run, name: &str, w: i32, h: i32, pts: &[(i32, i32)], depth: usize) {
     let mut alpha: Vec<QOp> = Vec::new();
     alpha.push(QOp::Z);
@@ -468,6 +528,13 @@ impl Check for C01 {
         // active edges), combs (n teeth) and tilings of many small subpaths, at every quarter
         // phase; a triangle at 4000 px on a 4000x1 surface
         many_edges(run, q);
+        // the same fills on a target that has already processed calls which leave every pixel alone
+        // (clip paths pushed and popped, off-surface and empty fills, a layer under an empty clip)
+        for pre in 1..=4u8 {
+            let xs = [-4, 0, 3, 6, 9];
+            let name = format!("j:triangles 5x5 2x2 after no-op history {}", pre);
+            polygons_pre(run, &name, 2, 2, &grid(&xs, &xs), pre);
+        }
         // degenerate surfaces: nothing painted, nothing panics
         for (w, h) in [(0, 0), (0, 3), (3, 0)] {
             let xs = [-4, 0, 5, 13];
@@ -484,6 +551,7 @@ impl Check for C01 {
             o => return Err(format!("bad rule {}", o)),
         };
         let aa = kv_i(&m, "aa")? != 0;
+        PREAMBLE.with(|p| p.set(m.get("pre").and_then(|v| v.parse::<u8>().ok()).unwrap_or(0)));
         let edges = edges_from_ops(&c.ops);
         let cov = coverage(&edges, c.w as usize, c.h as usize, rule);
         Ok(eval_config(&c, rule, aa, &cov).err())
